@@ -5,6 +5,8 @@ package classifier
 import (
 	"fmt"
 	"math/rand"
+	"os"
+	"path/filepath"
 	"regexp"
 	"sort"
 	"strings"
@@ -90,6 +92,8 @@ func vTHyphen(r *rand.Rand, lines []string) ([]string, []int, int, int, map[stri
 		// dropped, and a remainder that looks like a notice or date line is dropped
 		// whole. Record which tokens may legitimately be lost to that finding.
 		if f := strings.Fields(rest); len(f) >= 2 {
+			// like the tokenizer, ignore what precedes the first word-start character
+			f[1] = strings.TrimLeftFunc(f[1], func(c rune) bool { return !(unicode.IsLetter(c) || unicode.IsDigit(c) || c == '&' || c == '(') })
 			rem := strings.ToLower(strings.Join(f[1:], " "))
 			whole := false
 			for _, re := range ignorableTexts {
@@ -241,7 +245,7 @@ func TestVerifC06(t *testing.T) {
 	}
 	// fixed witnesses of the open findings
 	nw := len(cases)
-	cases = append(cases, cdesc{-1, 0, 0}, cdesc{-1, 0, 1}, cdesc{-1, 0, 2}, cdesc{-1, 0, 3})
+	cases = append(cases, cdesc{-1, 0, 0}, cdesc{-1, 0, 1}, cdesc{-1, 0, 2}, cdesc{-1, 0, 3}, cdesc{-1, 0, 4})
 	_ = nw
 
 	markerLetters := map[string]bool{}
@@ -387,6 +391,13 @@ func TestVerifC06(t *testing.T) {
 							return
 						}
 					}
+					if kf, det := vLineGeometryOnly(in0, in1, r0, r1); kf {
+						cs.setInput(in1)
+						cs.addInput("base", in0)
+						cs.knownFinding("KF-C06-5", "overlap-filter-line-granular", "%s: %s", b.name, det)
+						cs.nontrivial(in1)
+						return
+					}
 					fail("hyphenation-changes-result", in1, r1, why)
 					return
 				}
@@ -438,6 +449,26 @@ func vC06Witness(cs *vCase, c *Classifier, docs []vDoc, which int) {
 		return
 	}
 	lines := strings.Split(base, "\n")
+	if which == 4 { // KF-C06-5: committed pair of inputs (known/C06-5-*.txt)
+		b0, err0 := os.ReadFile(filepath.Join(os.Getenv("VERIF_HOME"), "known", "C06-5-base.txt"))
+		b1, err1 := os.ReadFile(filepath.Join(os.Getenv("VERIF_HOME"), "known", "C06-5-transformed.txt"))
+		if err0 != nil || err1 != nil {
+			cs.inconclusive("witness files known/C06-5-*.txt not found")
+			return
+		}
+		x0, x1 := vLic(c.Match(b0)), vLic(c.Match(b1))
+		if !vSame(x0, x1, false, 0, 0) {
+			if kf, det := vLineGeometryOnly(b0, b1, x0, x1); kf {
+				cs.setInput(b1)
+				cs.knownFinding("KF-C06-5", "overlap-filter-line-granular", "witness: %s", det)
+			} else {
+				cs.setInput(b1)
+				cs.violation("hyphenation-changes-result", "witness pair known/C06-5-*: results differ and the line-geometry signature does not hold: %s vs %s", vFmt(x0), vFmt(x1))
+			}
+		}
+		cs.nontrivial("witness", which)
+		return
+	}
 	switch which {
 	case 0: // KF-C06-1: "a)" marker
 		l2 := append([]string{}, lines...)
@@ -486,4 +517,54 @@ func vC06Witness(cs *vCase, c *Classifier, docs []vDoc, which int) {
 		}
 	}
 	cs.nontrivial("witness", which)
+}
+
+// vLineGeometryOnly is the signature of KF-C06-5: the two inputs have identical
+// token sequences (so every candidate has the same tokens and confidence), all
+// matches common to both results agree in name, confidence and token span, and
+// every match that is present in only one result overlaps, in tokens, a match
+// present in both - i.e. only the line-based overlap filter of match() decided
+// differently because a line break moved.
+func vLineGeometryOnly(in0, in1 []byte, r0, r1 []vM) (bool, string) {
+	w0, _, _ := vRawTokens(in0)
+	w1, _, _ := vRawTokens(in1)
+	if strings.Join(w0, " ") != strings.Join(w1, " ") {
+		return false, ""
+	}
+	key := func(m vM) string { return fmt.Sprintf("%s/%x/%d-%d", m.Key, m.Bits, m.ST, m.ET) }
+	in0set, in1set := map[string]vM{}, map[string]vM{}
+	for _, m := range r0 {
+		in0set[key(m)] = m
+	}
+	for _, m := range r1 {
+		in1set[key(m)] = m
+	}
+	var common, only []vM
+	for k, m := range in0set {
+		if _, ok := in1set[k]; ok {
+			common = append(common, m)
+		} else {
+			only = append(only, m)
+		}
+	}
+	for k, m := range in1set {
+		if _, ok := in0set[k]; !ok {
+			only = append(only, m)
+		}
+	}
+	if len(only) == 0 {
+		return false, ""
+	}
+	for _, m := range only {
+		ov := false
+		for _, c := range common {
+			if m.ST <= c.ET && c.ST <= m.ET {
+				ov = true
+			}
+		}
+		if !ov {
+			return false, ""
+		}
+	}
+	return true, fmt.Sprintf("identical token sequences; %d match(es) kept/dropped only by the line-based overlap filter, e.g. %s", len(only), only[0])
 }
